@@ -388,6 +388,62 @@ def build(run):
     run.function(estimate_total_polynomial_degree)
     run.add("estimate_total_polynomial_degree/templates", whole, kind="bounded")
 
+    # ---- attach_estimated_degrees: what compute_form_data attaches to each integral is an estimate of THAT integrand, whatever
+    # metadata the integral already carries (forms are re-processed after replace()/reconstruct(), so an annotation may be stale)
+    def attach():
+        from ufl.algorithms.compute_form_data import attach_estimated_degrees
+        n = 0
+        holder = {}
+        for mdkind in ("none", "quadrature_degree", "stale estimated_polynomial_degree", "other key"):
+            def mk():
+                d = [SymInt("d0"), SymInt("d1"), SymInt("m")]
+                holder["d"] = d
+                return d
+
+            def fn(d0, d1, m, mdkind=mdkind):
+                from ufv import symx
+                with shadow_int(ED):
+                    V0 = ufl.FunctionSpace(tri, elem(d0))
+                    V1 = ufl.FunctionSpace(tri, elem(d1, (2,)))
+                    f, g = ufl.Coefficient(V0), ufl.Coefficient(V1)
+                    md = {"none": {}, "quadrature_degree": {"quadrature_degree": m}, "stale estimated_polynomial_degree": {"estimated_polynomial_degree": m},
+                          "other key": {"quadrature_rule": "default", "estimated_polynomial_degree": m, "quadrature_degree": m}}[mdkind]
+                    form = f * g[0] * ufl.dx(tri, metadata=md) + f * f * g[1] * ufl.ds(tri, metadata=md)
+                    symx.ALLOW_TERM_HASH[0] = True
+                    try:
+                        out = attach_estimated_degrees(form)
+                    finally:
+                        symx.ALLOW_TERM_HASH[0] = False
+                    res = {}
+                    for itg in out.integrals():
+                        res[itg.integral_type()] = itg.metadata()["estimated_polynomial_degree"]
+                        for k_, v_ in md.items():
+                            if k_ != "estimated_polynomial_degree" and itg.metadata().get(k_) is not v_:
+                                raise AssertionError(f"metadata entry {k_} was not kept")
+                    return (res["cell"], res["exterior_facet"])
+            paths, complete = explore(fn, mk)
+            if not complete:
+                return undecided("attach: path cap")
+            t0, t1 = z3.Int("d0"), z3.Int("d1")
+            for p in paths:
+                if p.kind == "exc":
+                    return violated(f"attach_estimated_degrees[{mdkind}] raised {type(p.value).__name__}: {p.value}", reproduced=True,
+                                    replay={"metadata": mdkind})
+                for val, true_deg, what in ((p.value[0], t0 + t1, "f*g[0]*dx"), (p.value[1], 2 * t0 + t1, "f*f*g[1]*ds")):
+                    st, model = prove(p.pc + nn(*holder["d"]), term(val) >= true_deg)
+                    n += 1
+                    if st == "refuted":
+                        return violated(f"attach_estimated_degrees, integral {what} carrying metadata [{mdkind}]: attached degree {val!r} is below the "
+                                        f"true degree {true_deg} at {model}", replay={"model": model, "metadata": mdkind, "integral": what},
+                                        reproduced=True, backend="z3")
+                    if st == "unknown":
+                        return undecided("attach: z3 unknown")
+        return proved("z3(path-exhaustive)", vcs=n, sample="attached estimated_polynomial_degree >= d0+d1 (cell) and 2*d0+d1 (facet) for all degrees and "
+                      "every pre-existing metadata value m, other metadata entries kept")
+    from ufl.algorithms.compute_form_data import attach_estimated_degrees as _aed
+    run.function(_aed)
+    run.add("attach_estimated_degrees/pre-existing-metadata", attach, kind="values")
+
     # ---- canary
     def canary_make():
         e = est()
